@@ -98,6 +98,10 @@ func (e *Enc) run() {
 	}
 	for _, fv := range f.FreeVars {
 		e.bindParam(fv, fv.Name(), fv.Type())
+		// a free variable is the address of a live variable cell of the enclosing function
+		if _, isPtr := fv.Type().Underlying().(*types.Pointer); isPtr {
+			e.assumeG(tLt("0", e.vals[fv].T))
+		}
 	}
 	e.worldAxioms()
 	e.locksAtEntry()
@@ -121,6 +125,15 @@ func (e *Enc) run() {
 		e.exitSt[b] = e.cur
 	}
 	e.evalReplayVals()
+	// every at-clause must have found its anchor (a renamed callee or a removed statement must not pass silently)
+	if e.fc != nil && e.pass == 2 {
+		for ai, at := range e.fc.Ats {
+			if !e.atHit[ai] {
+				e.curReach = tTrue
+				e.oblige("anchor", fmt.Sprintf("anchor:%s.%d", at.Anchor, ai), tFalse, token.NoPos, "contract anchor `at "+at.Anchor+"` matches no statement of the function")
+			}
+		}
+	}
 }
 
 // evalReplayVals evaluates the contract's replay expressions (entry state; call results by name).
